@@ -1,3 +1,6 @@
 import OASProofs.Lemmas.Basic
 import OASProofs.Props.C11
 import OASProofs.Props.C16
+import OASProofs.Props.C15
+import OASProofs.Props.C17
+import OASProofs.Props.C18
